@@ -46,6 +46,8 @@ type Msg struct {
 
 type Case struct {
 	MTU       int      `json:"mtu"`
+	MTU0      int      `json:"mtu0,omitempty"`     // >0: the face is created with this MTU, which is then changed to MTU (faces/update does that)
+	LateOpts  bool     `json:"lateopts,omitempty"` // the options are applied with SetOptions after creation with the defaults
 	Frag      bool     `json:"frag"`              // sender: IsFragmentationEnabled
 	InFaceInd bool     `json:"ifi,omitempty"`     // sender: IsIncomingFaceIndicationEnabled
 	LocalCong bool     `json:"lcong,omitempty"`   // sender's queue is congested: it adds its own mark
@@ -271,12 +273,27 @@ func execC10(c Case) (res evid.Result) {
 	}()
 
 	uri := defn.MakeNullFaceURI()
-	tx := face.VerifMakeTransport(uri, uri, face.PersistencyPersistent, defn.NonLocal, defn.PointToPoint, c.MTU)
+	mtu0 := c.MTU
+	if c.MTU0 > 0 {
+		mtu0 = c.MTU0
+		cls["mtu-changed-after-creation"] = true
+	}
+	tx := face.VerifMakeTransport(uri, uri, face.PersistencyPersistent, defn.NonLocal, defn.PointToPoint, mtu0)
 	opts := face.MakeNDNLPLinkServiceOptions()
 	opts.IsFragmentationEnabled = c.Frag
 	opts.IsIncomingFaceIndicationEnabled = c.InFaceInd
-	sender := face.MakeNDNLPLinkService(tx, opts)
+	var sender *face.NDNLPLinkService
+	if c.LateOpts {
+		sender = face.MakeNDNLPLinkService(tx, face.MakeNDNLPLinkServiceOptions())
+		sender.SetOptions(opts)
+		cls["options-changed-after-creation"] = true
+	} else {
+		sender = face.MakeNDNLPLinkService(tx, opts)
+	}
 	sender.SetFaceID(300)
+	if c.MTU0 > 0 {
+		sender.SetMTU(c.MTU)
+	}
 
 	send := func(out dispatch.OutPkt) (frames [][]byte, err error) {
 		defer func() {
@@ -671,6 +688,13 @@ func genCase(t *rapid.T) Case {
 	} else {
 		c.MTU = rapid.IntRange(128, 8800).Draw(t, "mtu")
 	}
+	if rapid.IntRange(0, 3).Draw(t, "mtuChanged") == 0 {
+		c.MTU0 = rapid.SampledFrom([]int{128, 256, 1000, 1400, 1500, 8000, 8800}).Draw(t, "mtu0")
+		if c.MTU0 == c.MTU {
+			c.MTU0 = 0
+		}
+	}
+	c.LateOpts = rapid.IntRange(0, 3).Draw(t, "lateOpts") == 0
 	c.Frag = rapid.IntRange(0, 5).Draw(t, "frag") != 0
 	c.InFaceInd = rapid.Bool().Draw(t, "inFaceInd")
 	c.LocalCong = rapid.IntRange(0, 11).Draw(t, "localCong") == 0
